@@ -182,3 +182,26 @@ func (fx *fctx) rangeModelled(st *State, s *ast.RangeStmt, mt *types.Map, keyVar
 		hd.vars[seenVar] = &Value{T: seenVar.Type(), Tm: ts.Fresh("rangeseen", seenSort)}
 	})
 }
+
+// modelledMapTypes: the map types named by `mapmodel`, found among the types the package uses.
+func (e *Engine) modelledMapTypes() []*types.Map {
+	if e.mapTypesCache != nil {
+		return e.mapTypesCache
+	}
+	out := []*types.Map{}
+	seen := map[string]bool{}
+	for _, tv := range e.P.Info.Types {
+		if tv.Type == nil {
+			continue
+		}
+		if m := e.mapModelled(tv.Type); m != nil {
+			k := e.typeStr(m)
+			if !seen[k] {
+				seen[k] = true
+				out = append(out, m)
+			}
+		}
+	}
+	e.mapTypesCache = out
+	return out
+}
